@@ -24,7 +24,7 @@ import (
 func init() { register("C07", "exploration", runC07) }
 
 func runC07(r *ev.Run) {
-	r.SetRule("a base state (3 mailboxes, 9 messages with flags, a subscription change) is built once and its directories are copied for every trial. For each of ~20 operations (APPEND, COPY, MOVE, STORE, EXPUNGE, UID EXPUNGE, CLOSE, CREATE with parents, DELETE, RENAME, RENAME INBOX, SUBSCRIBE/UNSUBSCRIBE, connector delivery and deletion) a reference run without faults records how often every failpoint (SQL query/exec inside the transaction, before/after COMMIT, after the state's and the user's commit, in the middle of the store's Set) and every store call (Set/Get/Delete) is reached and what the state is afterwards. Trials then enumerate (operation, point, k-th hit, crash | injected error): the server runs in a child process that SIGKILLs itself at the point or returns an error from it; survivors are either SIGKILLed or closed; a subset is also killed during the next start-up. After the final restart the complete observation (LIST, LSUB, UIDVALIDITY, UIDNEXT, UIDs, flags, bytes of every message) must equal the state before or the state after the operation - for every mailbox - and must be the state after whenever the operation had been answered OK; every message must be fetchable with the bytes that were handed in; the number of files in the store must equal the number of message rows in the index and no row may still be marked for deletion. distinct = distinct (operation, point, mode, outcome) tuples")
+	r.SetRule("a base state (3 mailboxes, 9 messages with flags, a subscription change) is built once and its directories are copied for every trial. For each of ~20 operations (APPEND, COPY, MOVE, STORE, EXPUNGE, UID EXPUNGE, CLOSE, CREATE with parents, DELETE, RENAME, RENAME INBOX, SUBSCRIBE/UNSUBSCRIBE, connector delivery and deletion) a reference run without faults records how often every failpoint (SQL query/exec inside the transaction, before/after COMMIT, after the state's and the user's commit, in the middle of the store's Set) and every store call (Set/Get/Delete) is reached and what the state is afterwards. Trials then enumerate (operation, point, k-th hit, crash | injected error): the server runs in a child process that SIGKILLs itself at the point or returns an error from it; survivors are either SIGKILLed or closed; a subset is also killed during the next start-up. After the final restart the complete observation (LIST, LSUB, UIDVALIDITY, UIDNEXT, UIDs, flags, bytes of every message) must equal the state before or the state after the operation - for every mailbox - and must be the state after whenever the operation had been answered OK; every message must be fetchable with the bytes that were handed in; the number of files in the store must equal the number of message rows in the index and no row may still be marked for deletion. A second part runs a fixed script of 10 operations back to back and SIGKILLs the process after a PRNG-chosen delay: with j operations acknowledged, every mailbox must afterwards be in the reference state after j or j+1 operations. distinct = distinct (operation, point, mode, outcome) tuples and numbers of operations acknowledged before a random kill")
 	r.Assume("process death is SIGKILL of the server process: what the OS has accepted survives (power loss and fsync ordering are out of reach of this technique); the harness connector lives in the server process and starts empty after a restart")
 
 	dir := caseDir(r, "c07")
@@ -44,13 +44,13 @@ func runC07(r *ev.Run) {
 	ops := c07Ops()
 
 	type trial struct {
-		op    *c07Op
-		point string // failpoint name or "store.<op>"
-		k     int
-		mode  string // crash | err
-		end   string // kill | close
-		start string // "" or start-up failpoint
-		atStartup bool // the point/k/mode apply to the start-up after the (undisturbed, then killed) operation
+		op        *c07Op
+		point     string // failpoint name or "store.<op>"
+		k         int
+		mode      string // crash | err
+		end       string // kill | close
+		start     string // "" or start-up failpoint
+		atStartup bool   // the point/k/mode apply to the start-up after the (undisturbed, then killed) operation
 	}
 
 	var (
@@ -58,7 +58,7 @@ func runC07(r *ev.Run) {
 		refs   = map[string]*c07Obs{}
 
 		pointsSeen = map[string]map[string]int{}
-		mu     sync.Mutex
+		mu         sync.Mutex
 	)
 
 	rng := r.Rand("c07")
@@ -140,15 +140,23 @@ func runC07(r *ev.Run) {
 				}
 
 				for _, m := range modes {
-					t := trial{op: op, point: n, k: k, mode: m, end: []string{"kill", "close"}[rng.Intn(2)], atStartup: op.startup}
-
-					if op.startup {
-						t.end = "kill"
-					} else if rng.Intn(6) == 0 {
-						t.start = fmt.Sprintf("crash db.tx.exec %d", 1+rng.Intn(6))
+					ends := []string{[]string{"kill", "close"}[rng.Intn(2)]}
+					if r.Thorough() && !op.startup {
+						ends = []string{"kill", "close"}
 					}
 
-					trials = append(trials, t)
+					for _, e := range ends {
+						t := trial{op: op, point: n, k: k, mode: m, end: e, atStartup: op.startup}
+
+						if op.startup {
+							t.end = "kill"
+						} else if rng.Intn(r.Pick(6, 2)) == 0 {
+							sp := []string{"db.tx.exec", "db.tx.query", "db.tx.beforeCommit", "db.tx.afterCommit", "store.delete"}[rng.Intn(5)]
+							t.start = fmt.Sprintf("crash %s %d", sp, 1+rng.Intn(6))
+						}
+
+						trials = append(trials, t)
+					}
 				}
 			}
 		}
@@ -251,6 +259,203 @@ func runC07(r *ev.Run) {
 			return
 		}
 	})
+
+	c07RandomKills(r, dir, base, lits)
+}
+
+// c07RandomKills: a fixed script of operations runs back to back while the server process is SIGKILLed after a
+// PRNG-chosen delay. With j operations acknowledged before the death, every mailbox must afterwards be in the
+// state the reference run showed after j or after j+1 operations (the delay only diversifies the schedule; the
+// verdict is about states, not about time).
+func c07RandomKills(r *ev.Run, dir, base string, lits map[string][]byte) {
+	type step struct {
+		sel string
+		cmd []any
+	}
+
+	script := []step{
+		{"", []any{"APPEND Work (\\Flagged) ", imapc.Lit(simpleMessage("c07-new", nil))}},
+		{"INBOX", []any{"COPY 1:3 Other"}},
+		{"Bulk", []any{`STORE 1:12 +FLAGS (\Seen)`}},
+		{"Bulk", []any{"MOVE 1:4 Work"}},
+		{"INBOX", []any{"EXPUNGE"}},
+		{"Work", []any{`STORE 1:* -FLAGS (\Deleted)`}},
+		{"", []any{"SUBSCRIBE Other"}},
+		{"Bulk", []any{"COPY 1:8 INBOX"}},
+		{"Other", []any{`STORE 1:* +FLAGS (\Deleted)`}},
+		{"Other", []any{"EXPUNGE"}},
+	}
+
+	run := func(cn *imapc.Conn, st step) bool {
+		if st.sel != "" {
+			if res := cn.Cmdf("SELECT %s", st.sel); !res.OK() {
+				return false
+			}
+		}
+
+		return cn.Cmd(st.cmd...).OK()
+	}
+
+	// reference: the state after every prefix, observed through a restart of a copy
+	states := make([]*c07Obs, len(script)+1)
+
+	refDir := filepath.Join(dir, "kill-ref")
+	if err := copyDir(base, filepath.Join(refDir, "server")); err != nil {
+		r.Inconclusive("random kills: %v", err)
+		return
+	}
+
+	var total time.Duration
+
+	for j := 0; j <= len(script); j++ {
+		child, err := c07Start(refDir, "")
+		if err != nil {
+			r.Inconclusive("random kills: reference: %v", err)
+			return
+		}
+
+		obs, err := c07Observe(child, filepath.Join(refDir, "server"), lits)
+		if err != nil {
+			child.Kill()
+			r.Inconclusive("random kills: reference observation: %v", err)
+
+			return
+		}
+
+		states[j] = obs
+
+		if j < len(script) {
+			cn, err := c07Prepare(child, &c07Op{})
+			if err != nil {
+				child.Kill()
+				r.Inconclusive("random kills: %v", err)
+
+				return
+			}
+
+			t0 := time.Now()
+
+			if !run(cn, script[j]) {
+				child.Kill()
+				r.Inconclusive("random kills: reference step %d refused", j)
+
+				return
+			}
+
+			total += time.Since(t0)
+			cn.Close()
+		}
+
+		c07CloseClean(child)
+	}
+
+	_ = os.RemoveAll(refDir)
+
+	trials := r.Pick(60, 800)
+	rng := r.Rand("c07-kills")
+	delays := make([]time.Duration, trials)
+
+	for i := range delays {
+		delays[i] = time.Duration(rng.Int63n(int64(total) + int64(5*time.Millisecond)))
+	}
+
+	ev.Parallel(trials, 12, func(i int) {
+		label := fmt.Sprintf("random-kill-%d", i)
+		if r.OnlyCase != "" && r.OnlyCase != label {
+			return
+		}
+
+		tdir := filepath.Join(dir, fmt.Sprintf("k%d", i))
+
+		defer os.RemoveAll(tdir)
+
+		if err := copyDir(base, filepath.Join(tdir, "server")); err != nil {
+			r.Inconclusive("%s: %v", label, err)
+			return
+		}
+
+		child, err := c07Start(tdir, "")
+		if err != nil {
+			r.Inconclusive("%s: %v", label, err)
+			return
+		}
+
+		cn, err := c07Prepare(child, &c07Op{})
+		if err != nil {
+			child.Kill()
+			r.Inconclusive("%s: %v", label, err)
+
+			return
+		}
+
+		timer := time.AfterFunc(delays[i], func() { _ = child.cmd.Process.Kill() })
+		acked := 0
+
+		for _, st := range script {
+			if !run(cn, st) {
+				break
+			}
+
+			acked++
+		}
+
+		timer.Stop()
+		cn.Close()
+		child.Kill()
+
+		r.Eval(1)
+		r.Distinct(fmt.Sprintf("random kill after %d acknowledged operations", acked))
+
+		c3, err := c07Start(tdir, "")
+		if err != nil {
+			if strings.Contains(err.Error(), "exited during start") {
+				r.Violate("C07 not-usable-after-restart random-kill", fmt.Sprintf("%s: killed after %d acknowledged operations, the server does not start any more: %v", label, acked, err), label, nil)
+			} else {
+				r.Inconclusive("%s: %v", label, err)
+			}
+
+			return
+		}
+
+		obs, err := c07Observe(c3, filepath.Join(tdir, "server"), lits)
+
+		c07CloseClean(c3)
+
+		if err != nil {
+			r.Violate("C07 not-usable-after-restart random-kill", fmt.Sprintf("%s: killed after %d acknowledged operations, the state cannot be read after the restart: %v", label, acked, err), label, nil)
+			return
+		}
+
+		lo := states[acked]
+		hi := lo
+
+		if acked < len(script) {
+			hi = states[acked+1]
+		}
+
+		witness := map[string]any{"acknowledged": acked, "delay": delays[i].String(), "state_after_acknowledged": lo.summary(), "state_after_next": hi.summary(), "observed": obs.summary()}
+
+		if d := c07PerMailbox(obs, lo, hi); d != "" {
+			r.Violate("C07 neither-before-nor-after random-kill", fmt.Sprintf("%s: the process was killed with %d operations acknowledged; after the restart %s", label, acked, d), label, witness)
+			return
+		}
+
+		if obs.badBytes != "" {
+			r.Violate("C07 bytes-differ-after-restart random-kill", fmt.Sprintf("%s: %s", label, obs.badBytes), label, witness)
+			return
+		}
+
+		if rows, marked, err := c07DBCounts(filepath.Join(tdir, "server")); err == nil {
+			if rows != obs.files {
+				r.Violate("C07 store-and-index-disagree random-kill", fmt.Sprintf("%s: after the restart the store holds %d files, the index has %d message rows", label, obs.files, rows), label, witness)
+				return
+			}
+
+			if marked != 0 {
+				r.Violate("C07 marked-messages-left random-kill", fmt.Sprintf("%s: %d messages are still marked for deletion after the restart", label, marked), label, witness)
+			}
+		}
+	})
 }
 
 func b2i(b bool) int {
@@ -316,6 +521,11 @@ func c07Ops() []*c07Op {
 		cmd("RENAME-INBOX", "", "RENAME INBOX Archive"),
 		cmd("SUBSCRIBE", "", "SUBSCRIBE Other"),
 		cmd("UNSUBSCRIBE", "", "UNSUBSCRIBE Work"),
+		cmd("COPY-many", "Bulk", "COPY 1:12 Other"),
+		cmd("MOVE-many", "Bulk", "MOVE 2:11 Work"),
+		cmd("STORE-many", "Bulk", `STORE 1:12 +FLAGS (\Flagged kwmany)`),
+		cmd("EXPUNGE-many", "Bulk", "EXPUNGE"),
+		cmd("DELETE-nonempty", "", "DELETE Bulk"),
 		ctl("connector-deliver", "deliver Work c07-remote"),
 		// a new message and one the server already has (c07-o1 of Other) arrive in one update for INBOX
 		ctl("connector-deliver-known", "deliver2 INBOX c07-remote u1rBmsg8 c07-o1"),
@@ -625,6 +835,12 @@ func c07BuildBase(dir string) (string, map[string][]byte, error) {
 	put("Work", "c07-w3", `\Answered`)
 	put("Other", "c07-o1", ``)
 	put("Other", "c07-o2", `\Draft`)
+
+	cn.Cmd("CREATE Bulk")
+
+	for i := 1; i <= 12; i++ {
+		put("Bulk", fmt.Sprintf("c07-b%d", i), []string{``, `\Deleted`, `\Seen`}[i%3])
+	}
 
 	// one message lives in two mailboxes
 	cn.Cmd("SELECT INBOX")
